@@ -111,31 +111,38 @@ class Gen:
 
     # ---- fields --------------------------------------------------------------------------
     def field(self, ident, params, named, depth=2, attrs=True):
+        """independent attribute draws, within what FieldAttr::assert_validity and serde accept"""
         r = self.rng
         f = mk_field(ident, self.ty(depth, params))
         if not attrs:
             return f
-        k = r.random()
-        if named and k < 0.12:
-            f["rename"] = r.choice(RENAMES[:-1])
-        elif k < 0.20:
+        if r.random() < 0.08:                       # skip: nothing else matters; serde needs Default
             f["ty"] = self.ty(1, params, default_only=True)
             f["skip"] = True
-        elif k < 0.32:
-            if not self.contains_kind(f["ty"], ("tuple", "range", "param")) or r.random() < 0.15:
-                f["inline"] = True
-        elif named and k < 0.42:
+            return f
+        if named and r.random() < 0.10:             # flatten: excludes as / rename / inline / optional / type
             t = self.obj_named(params)
             if t is not None:
                 f["ty"] = t
                 f["flatten"] = True
-        elif named and k < 0.52:
+                if r.random() < 0.15:
+                    f["docs"] = r.choice(DOCS)
+                return f
+        if r.random() < 0.05:                       # type override: excludes as / inline / flatten / optional
+            f["type"] = r.choice(["string", "Array<number>", "{ a: number }", "unknown"])
+            if named and r.random() < 0.3:
+                f["rename"] = r.choice(RENAMES[:-1])
+            return f
+        if named and r.random() < 0.14:             # optional (needs Option), with or without skip_serializing_if
             f["ty"] = ("option", self.ty(depth - 1, params))
             f["optional"] = r.choice([False, False, True])
             f["skip_none"] = r.random() < 0.7
-        elif k < 0.57:
-            f["type"] = r.choice(["string", "Array<number>", "{ a: number }", "unknown"])
-        elif k < 0.62:
+        if r.random() < 0.16:
+            if not self.contains_kind(f["ty"], ("tuple", "range", "param")) or r.random() < 0.1:
+                f["inline"] = True
+        if named and r.random() < 0.12:
+            f["rename"] = r.choice(RENAMES[:-1])
+        if r.random() < 0.05 and f["optional"] is None:
             f["as_"] = self.ty(1, params)
             f["as_text"] = C.rust_ty(f["as_"], [p for p in params])
         if named and r.random() < 0.15:
@@ -155,6 +162,12 @@ class Gen:
     def fields(self, n, params, named, depth=2, attrs=True):
         idents = self.rng.sample(FIELD_IDENTS, n) if named else ["_%d" % i for i in range(n)]
         fs = [self.field(i, params, named, depth, attrs) for i in idents]
+        seen_rn = set()
+        for f in fs:   # serde (and JSON) need distinct keys
+            if f["rename"] is not None and f["rename"] in seen_rn:
+                f["rename"] = None
+            if f["rename"] is not None:
+                seen_rn.add(f["rename"])
         # the same type used twice in different modes (inline / flatten first, by name later, and the reverse):
         # the derive's dependency bookkeeping is keyed by the syntactic type
         if attrs and n >= 1 and self.rng.random() < 0.35:
@@ -343,6 +356,11 @@ class Gen:
                            params=[("T", None), ("U", ("named", "Foo", []))], flatten_ok=False, no_ref=True))
         self.add(mk_struct("KfG2", "named", [mk_field("h", ("named", "KfG1", [("leaf", "i32"), ("param", 0)]), inline=True)],
                            params=[("T", None)], flatten_ok=False, no_ref=True))
+        self.add(mk_struct("OptInline", "named", [
+            mk_field("a", ("option", ("named", "Foo", [])), optional=False, inline=True),
+            mk_field("b", ("option", ("named", "Foo", [])), optional=True, inline=True),
+            mk_field("c", ("option", ("named", "Foo", [])), optional=False, inline=True, skip_none=True),
+            mk_field("d", ("option", ("vec", ("named", "Color", []))), optional=False, skip_none=True)], flatten_ok=False, no_ref=True))
         self.add(mk_struct("KfOpt", "named", [mk_field("x", ("param", 0))], params=[("T", None)], optional_fields=True,
                            flatten_ok=False, no_ref=True))
 
@@ -360,15 +378,61 @@ class Gen:
             e["rename_all"] = rule
             e["rename_all_fields"] = self.rng.choice(RULES)
 
+    def systematic2(self):
+        """attribute precedence pairs: variant rename_all vs enum rename_all_fields, variant rename vs enum rename_all,
+        field rename vs rename_all — with multi-word identifiers so that every rule shows"""
+        pairs = [("camelCase", "SCREAMING_SNAKE_CASE"), ("kebab-case", "PascalCase"), ("UPPERCASE", "camelCase"), ("PascalCase", "kebab-case")]
+        for k, (r1, r2) in enumerate(pairs):
+            tg = [("external",), ("internal", "type"), ("adjacent", "t", "c"), ("untagged",)][k]
+            vs = [mk_variant("PlainOne", "named", [mk_field("foo_bar", ("leaf", "i32")), mk_field("some_long_name", ("leaf", "bool"))]),
+                  mk_variant("OwnRule", "named", [mk_field("foo_bar", ("leaf", "i32")), mk_field("some_long_name", ("leaf", "bool"))], rename_all=r2),
+                  mk_variant("RenamedOne", "named", [mk_field("foo_bar", ("leaf", "i32"), rename="explicit_name"), mk_field("x1", ("leaf", "u8"))],
+                             rename="custom-variant"),
+                  mk_variant("UnitOne", "unit")]
+            d = mk_enum(self.fresh("E"), vs, tagging=tg, rename_all_fields=r1, rename_all=r2 if k % 2 else None, flatten_ok=False)
+            self.finish(d)
+            self.add(d)
+
     def generate(self, n):
         self.seed_defs()
         self.systematic()
+        self.systematic2()
         while len(self.defs) < n:
             if self.rng.random() < 0.55:
                 self.struct()
             else:
                 self.enum()
+        self.twins()
         return self.defs
+
+    def twins(self):
+        """presentation twins (C14): the same item with `as = U` replaced by the type U itself, and with
+        `inline` removed; `twin_of` / `twin_kind` record the relation"""
+        import copy
+        for d in list(self.defs):
+            if d.get("no_ref") and not d["ident"].startswith("Opt"):
+                continue
+            fs = d["fields"] if d["kind"] == "struct" else [f for v in d["variants"] for f in v["fields"]]
+            if any(f["as_"] is not None for f in fs):
+                t = copy.deepcopy(d)
+                t["ident"] = d["ident"] + "TwAs"
+                t["rename"] = None
+                t["export_to"] = None
+                for f in (t["fields"] if t["kind"] == "struct" else [f for v in t["variants"] for f in v["fields"]]):
+                    if f["as_"] is not None:
+                        f["ty"] = f["as_"]
+                        f["as_"] = None
+                t["twin_of"], t["twin_kind"], t["no_ref"] = d["ident"], "as", True
+                self.add(t)
+            if any(f["inline"] for f in fs) and not any(f["as_"] is not None or f["type"] is not None for f in fs):
+                t = copy.deepcopy(d)
+                t["ident"] = d["ident"] + "TwIn"
+                t["rename"] = None
+                t["export_to"] = None
+                for f in (t["fields"] if t["kind"] == "struct" else [f for v in t["variants"] for f in v["fields"]]):
+                    f["inline"] = False
+                t["twin_of"], t["twin_kind"], t["no_ref"] = d["ident"], "inline", True
+                self.add(t)
 
     # ---- queries: closed types at which everything is evaluated ----------------------------
     def queries(self):
@@ -440,7 +504,8 @@ class Values:
         if k == "leaf":
             return self.leaf(t[1])
         if k == "option":
-            some = someness if someness is not None else (r.random() < 0.6 and depth < 6)
+            fs_ = getattr(self, "force_some", None)
+            some = someness if someness is not None else (fs_ if (fs_ is not None and depth <= 1) else (r.random() < 0.6 and depth < 6))
             if not some:
                 return ("None", "VNone")
             v = self.value(t[1], depth + 1)
@@ -513,6 +578,11 @@ class Values:
             if d["kind"] == "enum":
                 for i in range(len(d["variants"])):
                     out.append(self.value(t, 0, variant=i))
+            elif any(f["ty"][0] == "option" for f in d["fields"]):
+                for some in (False, True):
+                    self.force_some = some
+                    out.append(self.value(t, 0))
+                self.force_some = None
         for _ in range(count):
             out.append(self.value(t, 0))
         seen, res = set(), []
